@@ -84,19 +84,25 @@ Qed.
 Lemma events_of_filter p j : NoDup (map fst j) -> events_of p (filter has_data j) = events_of p j.
 Proof. intros ND. unfold events_of. apply lookup_filter_has_data. exact ND. Qed.
 
-Lemma with_data_filter j a b c e n : with_data (mkDisk a b c e (filter has_data j) n) = with_data (mkDisk a b c e j n).
+Lemma with_data_filter j a b c e n g : with_data (mkDisk a b c e (filter has_data j) n g) = with_data (mkDisk a b c e j n g).
 Proof.
   unfold with_data. cbn [d_jrnl]. f_equal. induction j as [|x j IH]; [reflexivity|]. cbn [filter].
   destruct (has_data x) eqn:E; cbn [filter]; rewrite ?E, IH; reflexivity.
 Qed.
 
+Lemma prog_init_ignores fx d : fx_prog fx = true -> exists l, prog_init fx d = Some l.
+Proof.
+  intros F. unfold prog_init. induction (d_prog d) as [|[t c] l IH]; cbn [fold_right]; [eexists; reflexivity|].
+  destruct IH as [l0 ->]. cbn [snd fst]. destruct c; [eexists; reflexivity|]. rewrite F. eexists; reflexivity.
+Qed.
+
 (* start on a directory whose tag index and pipes file are whole *)
-Lemma start_whole fx d parts pipes : d_tdat d = Some (Whole parts) -> (forall p, In p (with_data d) -> In p parts) ->
+Lemma start_whole fx d parts pipes : fx_prog fx = true -> d_tdat d = Some (Whole parts) -> (forall p, In p (with_data d) -> In p parts) ->
   pipes_init d = Some pipes -> keys_nodup d ->
   exists m' d', start fx d = Some (m', d') /\ m_parts m' = parts /\ m_pipes m' = pipes /\ m_buf m' = [] /\
                 (forall p, events_of p (d_jrnl d') = events_of p (d_jrnl d)) /\ d_tdat d' = Some (Whole parts).
 Proof.
-  intros Ht J Hp ND. unfold start. rewrite (tindex_init_whole d parts Ht J), Hp.
+  intros Fg Ht J Hp ND. unfold start. destruct (prog_init_ignores fx d Fg) as [prog ->]. rewrite (tindex_init_whole d parts Ht J), Hp.
   eexists. eexists. split; [reflexivity|]. cbn [m_parts m_pipes m_buf]. repeat split.
   - intros p. rewrite tsave_jrnl. cbn [d_jrnl]. apply events_of_filter. exact ND.
   - apply tsave_tdat.
@@ -112,30 +118,30 @@ Definition clean_statement (fx : fixes) : Prop :=
 Lemma flush_all_nobuf m d : m_buf m = [] -> d_jrnl (snd (flush_all m d)) = d_jrnl d.
 Proof. intros H. unfold flush_all. rewrite H. reflexivity. Qed.
 
-Lemma clean_quiescent fx m d : consistent m d -> keys_nodup d -> m_buf m = [] ->
+Lemma clean_quiescent fx m d : fx_prog fx = true -> consistent m d -> keys_nodup d -> m_buf m = [] ->
   exists m' d', start fx (graceful fx m d) = Some (m', d') /\
                 m_parts m' = m_parts m /\ m_pipes m' = m_pipes m /\
                 (forall p, events_of p (d_jrnl d') = acked m d p).
 Proof.
-  intros (Ht & Hj & _) ND Hb.
-  assert (G : exists c, graceful fx m d = mkDisk (d_tdat d) (d_tbak d) (Some (Whole c)) (Some (Whole (m_pipes m))) (d_jrnl d) (d_next d)).
+  intros Fg (Ht & Hj & _) ND Hb.
+  assert (G : exists c, graceful fx m d = mkDisk (d_tdat d) (d_tbak d) (Some (Whole c)) (Some (Whole (m_pipes m))) (d_jrnl d) (d_next d) (d_prog d)).
   { unfold graceful. destruct (fx_sync fx).
     - unfold flush_all. rewrite Hb. cbn. eexists. reflexivity.
     - eexists. reflexivity. }
   destruct G as [c G]. rewrite G.
-  destruct (start_whole fx (mkDisk (d_tdat d) (d_tbak d) (Some (Whole c)) (Some (Whole (m_pipes m))) (d_jrnl d) (d_next d))
-                        (m_parts m) (m_pipes m) Ht Hj eq_refl ND) as (m' & d' & S & P1 & P2 & _ & E & _).
+  destruct (start_whole fx (mkDisk (d_tdat d) (d_tbak d) (Some (Whole c)) (Some (Whole (m_pipes m))) (d_jrnl d) (d_next d) (d_prog d))
+                        (m_parts m) (m_pipes m) Fg Ht Hj eq_refl ND) as (m' & d' & S & P1 & P2 & _ & E & _).
   exists m', d'. split; [exact S|]. split; [exact P1|]. split; [exact P2|].
   intros p. rewrite E. unfold acked. cbn [d_jrnl]. rewrite Hb. cbn. rewrite app_nil_r. reflexivity.
 Qed.
 
 (* ---------- SIGKILL between two saver effects ---------- *)
-Lemma kill_then_start fx m d pipes : consistent m d -> keys_nodup d -> pipes_init d = Some pipes ->
+Lemma kill_then_start fx m d pipes : fx_prog fx = true -> consistent m d -> keys_nodup d -> pipes_init d = Some pipes ->
   exists m' d', start fx (killed m d) = Some (m', d') /\ m_parts m' = m_parts m /\ m_pipes m' = pipes /\
                 (forall p, events_of p (d_jrnl d') = events_of p (d_jrnl d)).
 Proof.
-  intros (Ht & Hj & _) ND Hp. unfold killed.
-  destruct (start_whole fx d (m_parts m) pipes Ht Hj Hp ND) as (m' & d' & S & P1 & P2 & _ & E & _).
+  intros Fg (Ht & Hj & _) ND Hp. unfold killed.
+  destruct (start_whole fx d (m_parts m) pipes Fg Ht Hj Hp ND) as (m' & d' & S & P1 & P2 & _ & E & _).
   exists m', d'. repeat split; assumption.
 Qed.
 
@@ -151,7 +157,7 @@ Lemma drop_disk fx d p parts :
 Proof.
   unfold drop_effs. destruct (fx_drop fx); cbn [fold_left dapply].
   - split; [apply tsave_tdat|]. split; [rewrite tsave_jrnl; reflexivity|].
-    destruct (tsave_other fx (mkDisk (d_tdat d) (d_tbak d) (d_cdat d) (d_pdat d) (remove_key p (d_jrnl d)) (d_next d)) parts) as (A & B & _).
+    destruct (tsave_other fx (mkDisk (d_tdat d) (d_tbak d) (d_cdat d) (d_pdat d) (remove_key p (d_jrnl d)) (d_next d) (d_prog d)) parts) as (A & B & _).
     split; [exact B|exact A].
   - cbn [d_tdat d_jrnl d_pdat d_cdat]. split; [apply tsave_tdat|]. split; [rewrite tsave_jrnl; reflexivity|].
     destruct (tsave_other fx d parts) as (A & B & _). split; [exact B|exact A].
@@ -189,10 +195,10 @@ Proof.
 Qed.
 
 Lemma pipes_torn_refuses fx d k : d_pdat d = Some (Torn k) -> start fx d = None.
-Proof. intros H. unfold start, pipes_init. rewrite H. cbn [decode]. destruct (tindex_init d); reflexivity. Qed.
+Proof. intros H. unfold start, pipes_init. rewrite H. cbn [decode]. destruct (prog_init fx d); [|reflexivity]. destruct (tindex_init d); reflexivity. Qed.
 
 Lemma tindex_torn_refuses fx d k : d_tdat d = Some (Torn k) -> start fx d = None.
-Proof. intros H. unfold start, tindex_init. rewrite H. reflexivity. Qed.
+Proof. intros H. unfold start, tindex_init. rewrite H. destruct (prog_init fx d); reflexivity. Qed.
 
 (* ---------- a hull rebuilt from the chunk hides nothing when timestamps do not decrease ---------- *)
 Lemma sorted_le_last l : StronglySorted Z.le l -> forall x d, In x l -> x <= last l d.
@@ -295,19 +301,19 @@ Proof.
     cbn [map fst]. rewrite <- (IH ND'). split; [intros [C|C]; [congruence|exact C]|intros C; right; exact C].
 Qed.
 
-Lemma clean_with_sync fx : fx_sync fx = true -> clean_statement fx.
+Lemma clean_with_sync fx : fx_sync fx = true -> fx_prog fx = true -> clean_statement fx.
 Proof.
-  intros F m d (Ht & Hj & Hb & NDb & Hc) ND.
+  intros F Fg m d (Ht & Hj & Hb & NDb & Hc) ND.
   destruct (flush_fold_spec (m_cur m) (m_buf m) NDb Hc (d_jrnl d) ND) as [N1 E1].
   unfold graceful. rewrite F. unfold flush_all. fold (flush_fold (m_cur m) (m_buf m) (d_jrnl d)).
   set (j1 := flush_fold (m_cur m) (m_buf m) (d_jrnl d)) in *. cbn [m_hull m_pipes d_tdat d_tbak d_jrnl d_next].
-  set (d1 := mkDisk (d_tdat d) (d_tbak d) (Some (Whole (m_hull m))) (Some (Whole (m_pipes m))) j1 (d_next d)).
+  set (d1 := mkDisk (d_tdat d) (d_tbak d) (Some (Whole (m_hull m))) (Some (Whole (m_pipes m))) j1 (d_next d) (d_prog d)).
   assert (J1 : forall p, In p (with_data d1) -> In p (m_parts m)).
   { intros p Hp. apply (with_data_events d1 p N1) in Hp. cbn [d1 d_jrnl] in Hp. rewrite E1 in Hp.
     destruct (events_of p (d_jrnl d)) eqn:Ev.
     - cbn in Hp. apply Hb. unfold get_list in Hp. destruct (lookup p (m_buf m)); congruence.
     - apply Hj. apply (with_data_events d p ND). congruence. }
-  destruct (start_whole fx d1 (m_parts m) (m_pipes m) Ht J1 eq_refl N1) as (m' & d' & S & P1 & P2 & _ & E & _).
+  destruct (start_whole fx d1 (m_parts m) (m_pipes m) Fg Ht J1 eq_refl N1) as (m' & d' & S & P1 & P2 & _ & E & _).
   exists m', d'. split; [exact S|]. split; [exact P1|]. split; [exact P2|].
   intros p. rewrite E. cbn [d1 d_jrnl]. rewrite E1. reflexivity.
 Qed.
@@ -354,7 +360,7 @@ Qed.
 
 Lemma start_consistent fx d m' d' : keys_nodup d -> start fx d = Some (m', d') -> consistent m' d' /\ keys_nodup d'.
 Proof.
-  intros ND S. unfold start in S.
+  intros ND S. unfold start in S. destruct (prog_init fx d); [|discriminate S].
   destruct (tindex_init d) as [parts|] eqn:T; [|discriminate S].
   destruct (pipes_init d) as [pipes|]; [|discriminate S].
   injection S as <- <-. pose proof (tindex_init_Some d parts T) as J.
@@ -391,7 +397,7 @@ Proof.
   destruct (flush_fold_spec (m_cur m) (m_buf m) NDb Hc (d_jrnl d) ND) as [N1 E1].
   unfold flush_all. fold (flush_fold (m_cur m) (m_buf m) (d_jrnl d)). cbn [fst snd].
   set (j1 := flush_fold (m_cur m) (m_buf m) (d_jrnl d)) in *.
-  set (d1 := mkDisk (d_tdat d) (d_tbak d) (d_cdat d) (d_pdat d) j1 (d_next d)).
+  set (d1 := mkDisk (d_tdat d) (d_tbak d) (d_cdat d) (d_pdat d) j1 (d_next d) (d_prog d)).
   split; [|exact N1]. split; [exact Ht|]. split; [|split; [|split]].
   - cbn [m_parts]. intros p Hp. apply (with_data_events d1 p N1) in Hp. cbn [d1 d_jrnl] in Hp. rewrite E1 in Hp.
     destruct (events_of p (d_jrnl d)) eqn:Ev.
@@ -426,7 +432,7 @@ Proof.
                                    | Some h => update (match lookup p (m_cur m) with Some c => c | None => d_next d' end) h (m_hull m)
                                    | None => m_hull m end)
                                   (m_pipes m)
-                                  (update p (match lookup p (m_cur m) with Some c => c | None => d_next d' end) (m_cur m))) d''
+                                  (update p (match lookup p (m_cur m) with Some c => c | None => d_next d' end) (m_cur m)) (m_prog m)) d''
                 /\ keys_nodup d'').
     { intros d'' E1 E2. split; [split; [|split; [|split; [|split]]]|].
       - cbn [m_parts]. rewrite E1. exact Td.
@@ -536,7 +542,7 @@ Lemma drop_then_restart m d p : consistent m d -> keys_nodup d ->
                 ~ In p (m_parts m') /\ (forall q, q <> p -> (In q (m_parts m') <-> In q (m_parts m))).
 Proof.
   intros C ND md. destruct (do_step_consistent code_fix m d (SDrop p) C ND) as [C1 N1]. fold md in C1, N1.
-  destruct (clean_with_sync code_fix eq_refl (fst md) (snd md) C1 N1) as (m' & d' & S & P & _ & _).
+  destruct (clean_with_sync code_fix eq_refl eq_refl (fst md) (snd md) C1 N1) as (m' & d' & S & P & _ & _).
   exists m', d'. split; [exact S|]. rewrite P. unfold md. cbn [do_step].
   destruct (mem_nat p (m_parts m)) eqn:E; cbn [fst m_parts].
   - split.
@@ -555,10 +561,18 @@ Proof.
 Qed.
 
 Lemma drain_catches_up fx m d s t : mem_nat s (m_parts m) = true ->
+  lookup t (m_prog m) = Some (length (acked m d t)) ->
   acked m d t = firstn (length (acked m d t)) (events_of s (d_jrnl d)) ->
-  let md := do_step fx (m, d) (SDrain s t) in acked (fst md) (snd md) t = events_of s (d_jrnl d).
+  let md := do_step fx (m, d) (SDrain s t) in
+  acked (fst md) (snd md) t = events_of s (d_jrnl d) /\
+  lookup t (m_prog (fst md)) = Some (length (events_of s (d_jrnl d))) /\
+  lookup t (d_prog (snd md)) = Some (Whole (length (events_of s (d_jrnl d)))).
 Proof.
-  intros R P md. unfold md. cbn [do_step]. rewrite R. rewrite do_write_acked. rewrite P at 1. apply firstn_skipn.
+  intros R L P md. unfold md. cbn [do_step]. rewrite R, L.
+  pose proof (do_write_acked fx m d t (skipn (length (acked m d t)) (events_of s (d_jrnl d)))) as A.
+  destruct (do_write fx m d t (skipn (length (acked m d t)) (events_of s (d_jrnl d)))) as [m1 d1].
+  cbn [fst snd] in *. split; [|split; cbn [m_prog d_prog]; apply lookup_update_same].
+  unfold acked at 1. cbn [m_buf d_jrnl]. fold (acked m1 d1 t). rewrite A. rewrite P at 1. apply firstn_skipn.
 Qed.
 
 (* ---------- a crash between the two effects of a partition removal ---------- *)
@@ -568,8 +582,8 @@ Definition drop_crash_statement (fx : fixes) : Prop :=
   dcrash_at fx d (drop_effs fx p parts') d' ->
   tindex_init d' = Some (m_parts m) \/ tindex_init d' = Some parts'.
 
-Lemma with_data_remove_key_disk a b c e n p j q :
-  In q (with_data (mkDisk a b c e (remove_key p j) n)) -> q <> p /\ In q (with_data (mkDisk a b c e j n)).
+Lemma with_data_remove_key_disk a b c e n g p j q :
+  In q (with_data (mkDisk a b c e (remove_key p j) n g)) -> q <> p /\ In q (with_data (mkDisk a b c e j n g)).
 Proof. unfold with_data. cbn [d_jrnl]. apply with_data_remove_key. Qed.
 
 Lemma drop_crash_data_first fx : fx_drop fx = true -> drop_crash_statement fx.
@@ -602,7 +616,9 @@ Proof.
   - destruct (mem_nat n (m_pipes m)); [reflexivity|]. destruct (fx_pipes fx); reflexivity.
   - destruct (mem_nat n (m_pipes m)); [|reflexivity]. destruct (fx_pipes fx); reflexivity.
   - destruct (mem_nat p (m_parts m)); [|reflexivity]. cbn [snd]. apply (proj2 (proj2 (proj2 (drop_disk fx d p _)))).
-  - destruct (mem_nat s (m_parts m)); [|reflexivity]. apply do_write_cdat.
+  - destruct (mem_nat s (m_parts m)); [|reflexivity].
+    match goal with |- context [do_write fx m d t ?x] => pose proof (do_write_cdat fx m d t x) as E; destruct (do_write fx m d t x) as [m1 d1] end.
+    exact E.
 Qed.
 
 Lemma run_steps_cdat fx l : forall m d, d_cdat (snd (run_steps fx (m, d) l)) = d_cdat d.
@@ -614,7 +630,7 @@ Qed.
 
 Lemma reachable_no_snapshot fx m d : fx_snap fx = true -> reachable fx m d -> d_cdat d = None.
 Proof.
-  intros F [d0 m0 d0' l ND S]. rewrite run_steps_cdat. unfold start in S.
+  intros F [d0 m0 d0' l ND S]. rewrite run_steps_cdat. unfold start in S. destruct (prog_init fx d0); [|discriminate S].
   destruct (tindex_init d0); [|discriminate S]. destruct (pipes_init d0); [|discriminate S].
   injection S as _ <-. rewrite (proj1 (tsave_other fx _ _)). cbn [d_cdat]. rewrite F. reflexivity.
 Qed.
@@ -675,7 +691,7 @@ Qed.
 Lemma start_no_snapshot_hull fx d m' d' p : d_cdat d = None -> chunk_ids_unique d -> start fx d = Some (m', d') ->
   events_of p (d_jrnl d') <> [] -> hull_of p m' = light_hull (events_of p (d_jrnl d')).
 Proof.
-  intros Hc U S NE. unfold start in S.
+  intros Hc U S NE. unfold start in S. destruct (prog_init fx d); [|discriminate S].
   destruct (tindex_init d); [|discriminate S]. destruct (pipes_init d); [|discriminate S].
   injection S as <- <-. rewrite tsave_jrnl in *. cbn [d_jrnl] in *.
   set (j := filter has_data (d_jrnl d)) in *. unfold hull_of. cbn [m_cur m_hull].
@@ -699,9 +715,39 @@ Proof.
   intros F m d R U Srt m' d' S p t lo hi It Ir. unfold killed in S.
   destruct (reachable_consistent fx m d R) as [_ ND].
   assert (E : events_of p (d_jrnl d') = events_of p (d_jrnl d)).
-  { unfold start in S. destruct (tindex_init d); [|discriminate S]. destruct (pipes_init d); [|discriminate S].
+  { unfold start in S. destruct (prog_init fx d); [|discriminate S]. destruct (tindex_init d); [|discriminate S]. destruct (pipes_init d); [|discriminate S].
     injection S as _ <-. rewrite tsave_jrnl. cbn [d_jrnl]. apply events_of_filter. exact ND. }
   rewrite (start_no_snapshot_hull fx d m' d' p (reachable_no_snapshot fx m d F R) U S).
   - rewrite E in *. apply range_rebuilt; [apply Srt|exact It|exact Ir].
   - intros C. rewrite C in It. destruct It.
+Qed.
+
+(* ---------- a torn pipe progress file ---------- *)
+Definition progress_torn_statement (fx : fixes) : Prop :=
+  forall prev d t k m' d', start fx d = Some (m', d') ->
+  exists m1 d1, start fx (apply_surgery fx prev d (GProgTorn t k)) = Some (m1, d1) /\
+                m_parts m1 = m_parts m' /\ m_pipes m1 = m_pipes m' /\ m_hull m1 = m_hull m' /\ d_jrnl d1 = d_jrnl d'.
+
+Lemma progress_torn_ignored fx : fx_prog fx = true -> progress_torn_statement fx.
+Proof.
+  intros F prev d t k m' d' S. cbn [apply_surgery]. destruct (lookup t (d_prog d)) as [c|].
+  - set (d1 := mkDisk (d_tdat d) (d_tbak d) (d_cdat d) (d_pdat d) (d_jrnl d) (d_next d) (update t (Torn k) (d_prog d))).
+    unfold start in *. destruct (prog_init_ignores fx d F) as [l E]. rewrite E in S.
+    destruct (prog_init_ignores fx d1 F) as [l1 ->].
+    change (tindex_init d1) with (tindex_init d). change (pipes_init d1) with (pipes_init d).
+    destruct (tindex_init d) as [parts|]; [|discriminate S]. destruct (pipes_init d) as [pipes|]; [|discriminate S].
+    injection S as <- <-. eexists. eexists. split; [reflexivity|]. cbn [m_parts m_pipes m_hull].
+    repeat split. rewrite !tsave_jrnl. reflexivity.
+  - exists m', d'. split; [exact S|]. repeat split.
+Qed.
+
+(* what the pipe does after it: no position, so the next catch-up starts after what is flushed at that moment *)
+Lemma drain_without_position fx m d s t : mem_nat s (m_parts m) = true -> lookup t (m_prog m) = None ->
+  let md := do_step fx (m, d) (SDrain s t) in
+  acked (fst md) (snd md) t = acked m d t /\ lookup t (m_prog (fst md)) = Some (length (events_of s (d_jrnl d))).
+Proof.
+  intros R L md. unfold md. cbn [do_step]. rewrite R, L. rewrite skipn_all.
+  pose proof (do_write_acked fx m d t []) as A. destruct (do_write fx m d t []) as [m1 d1]. cbn [fst snd] in *.
+  split; [|cbn [m_prog]; apply lookup_update_same].
+  unfold acked at 1. cbn [m_buf d_jrnl]. fold (acked m1 d1 t). rewrite A. apply app_nil_r.
 Qed.
